@@ -8,6 +8,7 @@ import (
 	"sort"
 	"strconv"
 	"strings"
+	"sync"
 
 	"github.com/dgraph-io/badger"
 	res "github.com/jirenius/go-res"
@@ -239,12 +240,21 @@ func (StoreCohScenario) Execute(sim *sched.Sim, ci interface{}, prop string, rac
 	}
 	// hook: with mockstore, never park while the store lock is held (the
 	// running task is the holder): transactions are atomic steps
+	var probeMu sync.Mutex
 	yield := func(point, arg string) {
 		if cr.mock != nil {
-			if !cr.mock.TryLock() {
+			// goroutines woken or created by the running task may reach
+			// their first yield point at the same moment: serialise the
+			// probes so that they do not see each other's TryLock
+			probeMu.Lock()
+			free := cr.mock.TryLock()
+			if free {
+				cr.mock.Unlock()
+			}
+			probeMu.Unlock()
+			if !free {
 				return
 			}
-			cr.mock.Unlock()
 		}
 		sim.Yield(point, arg)
 	}
